@@ -30,7 +30,11 @@
  * Development aid: VF_C18_ONLY / VF_C18_SKIP (comma separated api-name
  * prefixes) make the harness return immediately for the other APIs, so a
  * campaign can look behind a shallow defect.  Case bytes mean the same with or
- * without the variables. */
+ * without the variables.  VF_C18_VERBOSE prints every skipped (fault-free
+ * unusable) case to stderr.
+ *
+ * k runs from n down to 1: on a tree where an entry allocation's failure kills
+ * the process, the deeper sites still get their clean verdicts first. */
 #include "c18_common.h"
 
 #include "c18_bitmap.h"
